@@ -102,7 +102,7 @@ def _d_text_rx(parser):
         except Exception as e:
             return 'unparsable:' + type(e).__name__
         if rrx.size(t) > 6000:
-            return 'big'
+            return 'parsed:big'
         return 'parsed:' + hx(rrx.canon_of_regexp(t, sigma=sorted(set(ctx['sigma']) | rrx.symbols(t))))
     return f
 
